@@ -396,7 +396,10 @@ func (c *Conn) ExecRollbackTx(tx Tx) (res TxResult, err error) {
 	defer func() {
 		// Whatever happened, SQLite drops its locks at the end of the statement.
 		_ = c.Unlock(LockShared)
-		if c.JournalMode != Delete && c.jf != nil && err != nil {
+		// pager_unlock closes the journal when the database lock is dropped (files
+		// can be deleted while open on unix), in every journal mode.
+		if c.jf != nil {
+			c.op("close journal")
 			_ = c.jf.Close()
 			c.jf = nil
 		}
